@@ -7,7 +7,7 @@ DEFAULT_WEIGHTS = {
     "put_new": 10, "put_same": 3, "put_reser": 2, "put_change": 6, "put_revert": 3, "put_invalid": 3,
     "put_cond": 3, "put_uidconflict": 2, "put_uidchange": 2, "post": 2, "delete": 5, "delete_missing": 1, "delete_cond_stale": 1,
     "mkcol_new": 1, "mkcol_existing": 1, "delete_col": 0.4, "proppatch": 2, "read": 4, "restart": 0.5,
-    "put_missing_col": 0.5,
+    "put_missing_col": 0.5, "put_nouid": 0.5,
 }
 
 # names for C01-class histories: URL-hostile but not URL-structural
@@ -249,6 +249,16 @@ class Driver:
         name = self.rng.choice(names)
         body, uid, tok = self.body_for(name, uid)
         self.w.put(col.path, name, body, op="put_uidconflict", uid=uid, token=tok)
+        return [col.path]
+
+    def op_put_nouid(self):
+        col = self.pick_col(("calendar",))
+        if col is None or len(col.members) >= 8:
+            return None
+        name = self.rng.choice(self.names_for(col.path))
+        tok = self.w.new_token()
+        body = gen.ical(self.rng, None, tok)
+        self.w.put(col.path, name, body, op="put_nouid", uid=None, token=tok)
         return [col.path]
 
     def op_post(self):
